@@ -179,6 +179,7 @@ def run(ck: Check):
     report = {}
     pickles = Counter()
     probes = [0]
+    outside = []
     n_paths_total = 0
     exhaustive_done = []
 
@@ -219,6 +220,8 @@ def run(ck: Check):
         n_paths_total += done
         pickles.update(r.pickles)
         probes[0] += r.probes
+        for rec in r.outside.values():
+            outside.append(dict(rec, grammar=gt))
         report.setdefault(entry.name, {})[f"{gt}/{conf}"] = {"behaviours": done, "of_tour": len(paths), "steps": r.steps,
                                                            "stopped_by_violation": bad}
         if n_max is None:
@@ -259,8 +262,8 @@ def run(ck: Check):
                  "nocache": 12, "db": 30}[conf]
             if T:
                 n *= 12
-            if e.name == "AnalyticDiscipline":
-                n *= 4
+            if e.name == "AnalyticDiscipline" or e.name.startswith("Sobieski"):
+                n *= 4   # classes with their own exclusion list / __setstate__
             replay(e, gt, conf, max(1, n // e.cost))
         # 3c. shared file on a few other classes (attachment clause / D11)
         for e in [x for x in rest if x.name in ("MDOChain", "MDAGaussSeidel", "AnalyticDiscipline")]:
@@ -292,6 +295,8 @@ def run(ck: Check):
     ck.extra["grammar_type_not_settable"] = sorted(e.name for e in entries if e.adapter == "disc" and len(e.grammars) == 1)
     ck.extra["per_class"] = report
     ck.extra["executions_in_child_process"] = probes[0]
+    # deviations from the model that a never-pickled twin shows as well (not C20 matters; see Replayer.twin_agrees)
+    ck.extra["not_due_to_serialization"] = outside[:60]
     ck.extra["pickles_by_cache_moment_method"] = {"/".join(k): v for k, v in sorted(pickles.items())}
     ck.assumptions += [
         "HDF5Cache behavioural equivalence is replayed with the copy attached to a byte copy of the file taken at "
